@@ -117,6 +117,12 @@ OutcomeFull ==
        rl \in {F(0), Only(1, 1, 0)},
        pc \in {F("none"), Only(2, "unmet", "none")}}
 
+\* thorough: three steps in a chain with a stop request at any point, every handler subset that matters
+OutcomeStop3 ==
+  {[Base EXCEPT !.deps = d, !.contF = cf, !.handlers = h, !.hfail = hf, !.stop = TRUE]
+     : d \in {Chain, Fork, Join, F({})}, cf \in {F(FALSE), Only(1, TRUE, FALSE)},
+       h \in {AllH, {"exit"}, {"failure", "cancel"}}, hf \in {{}, {"failure"}}}
+
 \* ---- family "stop": C05 (stop at any point, obeying / ignoring processes, kill escalation, repeat, timeout)
 StopQuick ==
   {[Base EXCEPT !.deps = d, !.stop = TRUE, !.kill = k, !.obeys = ob, !.rlimit = rl, !.maxActive = m,
